@@ -43,6 +43,7 @@ func matrixCells() []cell {
 	}
 	textBoth("zero duration", []string{"C[0]", "C[1,0]", "C[1] R[0]", "C[0/4]"}, []string{"1[0]", "1[2,0]", "R[0] 1[1]"})
 	textBoth("zero denominator", []string{"C[1/0]", "C[1] G[3/0]"}, []string{"1[1/0]", "R[1/0] 2[1]"})
+	textBoth("zero denominator", []string{"C[1]{mtr=3/0}", "C[1] R[1]{mtr=4/0}"}, []string{"1[1]{mtr=3/0}", "1[1]{mtr=0/0}"})
 	textBoth("tempo 0", []string{"C[1]{bpm=0}", "C[1] R[1]{bpm=0}"}, []string{"1[1]{bpm=0}", "1[1]{bpm=00}"})
 	textBoth("unknown dynamic", []string{"C[1]{vel=zz}", "C[1]{vel=fff}", "C[1]{vel=F}"}, []string{"1[1]{vel=zz}", "1[1] 2[1]{vel=pianissimo}"})
 	longTail := strings.Repeat(" C[1,1/2]{a=b}", 40)
@@ -66,6 +67,7 @@ func matrixCells() []cell {
 	yamlCases := []struct{ n, doc string }{
 		{"zero duration", y("  values: [\"0\"]\n")}, {"zero duration", y("  values: [\"1\", \"0/3\"]\n")}, {"zero duration", "- values: [0]\n"},
 		{"zero denominator", y("  values: [\"1/0\"]\n")}, {"zero denominator", validYAML + "- values: [\"2/0\"]\n"},
+		{"zero denominator", y("  values: [\"1\"]\n  meter: \"4/0\"\n")}, {"zero denominator", validYAML + "- values: [\"1\"]\n  meter: \"3/0\"\n"},
 		{"no durations", y("  values: []\n")}, {"no durations", "- chord: {degree: \"1\", name: \"\"}\n"}, {"no durations", validYAML + "- bpm: 90\n"},
 		{"tempo 0", y("  values: [\"1\"]\n  bpm: 0\n")}, {"tempo 0", validYAML + "- values: [\"1\"]\n  bpm: 0\n"},
 		{"unknown dynamic", y("  values: [\"1\"]\n  velocity: zz\n")}, {"unknown dynamic", y("  values: [\"1\"]\n  velocity: \"\"\n")},
@@ -119,6 +121,9 @@ func matrixCells() []cell {
 		}
 		for _, a := range [][]string{{"--bpm", "0"}, {"--bpm=0"}, {"--bpm", "00"}} {
 			cells = append(cells, cell{"tempo 0", "flag", st, a, validYAML, "", strings.Join(a, " ")})
+		}
+		for _, a := range [][]string{{"--meter", "4/0"}, {"--meter=3/0"}} {
+			cells = append(cells, cell{"zero denominator", "flag", st, a, validYAML, "", strings.Join(a, " ")})
 		}
 	}
 	for _, k := range []string{"E#", "Abm", "G#"} {
